@@ -23,12 +23,17 @@ Semantics of the subset (the translator's conventions; printed in the generated 
     `set_ylim`, `set_xlabel`, `set_ylabel`, `set_title`, `legend` store their argument with the handle.  Styling arguments are
     carried as VALUES: a string / integer constant or a local holding one, or `param "<name>"` for an opaque parameter;
   * every other expression statement (`plt.style.use(colormap)`, `ax.set_aspect(…)`, `ax.margins(…)`, `plt.show()` under its `if`)
-    is an EFFECT the model does not carry: it is not translated and its text is pinned, in source order (`src_<f>_effects`);
+    is an EFFECT the model does not carry: it is not translated and its text is pinned WITH ITS POSITION (`src_<f>_effects`:
+    `"[k|n] stmt"`, `k` the path of the statement in the function body, `n` the number of names the translation has bound before it);
+  * `landscape.compute_landscape()` is NOT an effect: it writes the state (`max_depth`, `critical_pairs` / `values`) that the
+    translated statements read, and is translated as the state transformer `LandExact.compute_landscape` / `LandApprox.compute_landscape`
+    (a new SSA version of the object); iterating over an object that is not computed yet is outside the subset;
   * straight-line code is SSA-renamed, every assignment is a `let`; a raising expression (`xs[i]`, `np.min`, `np.concatenate`,
     `np.argmax`, a nested call) is bound by a `match` where the statement stands; an `if` whose arms fall through yields the
     names that exist before it (or are assigned in both arms) and are assigned in an arm;
   * arguments that are one of several Python types are sum types of the model (`DgmsArg`, `Labels`, `Option …`); the `if`s that
-    normalise them are statement idioms; `if x:` / `if not x:` / `if x is not None:` on an `Option` is a `match` binding the payload;
+    normalise them are statement idioms; `if x is None:` / `if x is not None:` on an `Option` is a `match` binding the payload, the truthiness test
+    `if not xy_range:` a `match truthyVal xy_range` (not the same text);
   * a float array that may hold `inf` has entries `Option α`; where such an entry is drawn or computed with it is read through
     `fin infv` (`infv` a parameter; the obligations hold for every value of it);
   * `for x in L: <in-place update of x>` is the map of the update over `L` -- accepted only for a list of arrays that this
@@ -62,7 +67,7 @@ TY = {"S": "α", "XS": "Option α", "N": "Nat", "I": "Int", "B": "Bool", "STR": 
       "XL": "List (Option α)", "FL": "List α", "BL": "List Bool", "M2": "Mat2 α", "V2": "α × α", "FD": "List (α × α)",
       "MT": "List (Row α)", "ROW": "Row α", "AX": "Axes", "FIG": "SFig α", "OLN": "Option (List Nat)", "LN": "List Nat",
       "OLS": "Option (List String)", "LFD": "List (List (α × α))", "LFL": "List (List α)", "Z": "Int",
-      "LE": "LandExact α", "LA": "LandApprox α"}
+      "LE": "LandExact α", "LA": "LandApprox α", "LE0": "LandExact α", "LA0": "LandApprox α"}
 OPTION_PAYLOAD = {"OXY": "XY", "OSTR": "STR", "OLI": "LI", "OLN": "LN", "OLS": "LS"}
 
 
@@ -265,7 +270,7 @@ RESERVED = set(FIXED_BINDERS) | {
     "fin", "finL", "offsets", "colBirth", "colDeath", "colDist", "astypeF32", "npConcatenate", "flatten2", "anyIsinf", "selectFinite",
     "npMin", "npMax", "colSubInPlace", "setWhereInf", "isfiniteMask", "maskRows", "npSize", "zeroRow", "vecDot", "dotRows",
     "pyEnumerate", "pyGet", "compGet", "seqOf", "truthy", "truthyStr", "listOfArg", "labelsOrElse", "broadcastStr", "hLabel", "lamLabel",
-    "rangeOr", "strOf", "argmax?", "some", "none", "true", "false", "List", "Option", "Except", "Axes", "SFig", "SArtist", "Labels", "DgmsArg", "Err",
+    "rangeOr", "strOf", "truthyVal", "argmax?", "some", "none", "true", "false", "List", "Option", "Except", "Axes", "SFig", "SArtist", "Labels", "DgmsArg", "Err",
     "Nat", "Int", "Bool", "String", "Dgm", "Row", "Mat2", "linspace", "natCast", "pairsCol0", "pairsCol1", "match", "with", "fun", "let",
     "if", "then", "else", "by", "at", "do", "in", "from", "have", "show", "end", "def", "theorem", "open", "namespace", "section",
     "variable", "where", "deriving", "instance", "structure", "inductive", "Type", "Prop", "Sort", "cast", "infv", "cos", "sin", "pi"}
@@ -372,6 +377,7 @@ class Fn:
         self.mutated = []             # python names updated in place by a statement of this body
         self.cur_stmt = None
         self.callees = []             # translated plotting functions this definition calls (the reviewed text takes them as parameters)
+        self.ndefs = 0                # number of names bound so far (`define`): part of the position of an effect
 
     # --- names
     def fresh(self, base, own=False):
@@ -396,6 +402,7 @@ class Fn:
             raise Shape("the local name `%s` is a name of the translator's library / of its fixed binders" % py)
         lean = self.fresh("fig", own=False) if py == "__fig" else self.fresh(py, own=True)
         self.env[py] = (lean, ty, fresh)
+        self.ndefs += 1
         return lean
 
     def disown(self, py):
@@ -751,6 +758,8 @@ class Fn:
             f = s.value.func
             if isinstance(f, ast.Name) and f.id in self.unit.cfgs:
                 return False
+            if self.obj_receiver(s) is not None:
+                return False                       # a method call on a landscape object writes state: never a mere effect
             if isinstance(f, ast.Attribute) and isinstance(f.value, ast.Name):
                 h = f.value.id
                 handle = h == "plt" or self.env.get(h, (0, 0))[1] == "AX"
@@ -762,6 +771,30 @@ class Fn:
             return bool(names) and names <= self.opaque and all(self.is_effect(x) for x in s.body + s.orelse) and bool(s.body)
         return False
 
+    def obj_receiver(self, s):
+        """the python name of the landscape object (raw or computed) that the expression statement `s` calls a method of, or None"""
+        if isinstance(s, ast.Expr) and isinstance(s.value, ast.Call) and isinstance(s.value.func, ast.Attribute) \
+                and isinstance(s.value.func.value, ast.Name):
+            x = s.value.func.value.id
+            if self.env.get(x, (0, 0))[1] in OBJECT_TYPES and x not in self.opaque:
+                return x
+        return None
+
+    def obj_stmt(self, s, go):
+        """`landscape.compute_landscape()`: the state transformer; the object gets a new SSA version, of the COMPUTED type.
+        Only as a statement of the function body itself: inside an `if` arm or a loop body the new state would not be what the
+        statements after the `if` / the loop see (they see the object the Python statement changed in place)."""
+        x = self.obj_receiver(s)
+        call = s.value
+        if call.func.attr != "compute_landscape" or call.args or call.keywords:
+            raise Shape("a method call on the landscape object that is not in the table: %s" % ast.unparse(s))
+        if "." in self.unit.paths[id(s)] or getattr(self, "in_round", False):
+            raise Shape("`%s` inside an `if` / a loop: the state it writes is read by the statements after it" % ast.unparse(s))
+        v = self.cur(x)
+        ty = COMPUTED[v.ty]
+        name = self.define(x, ty)
+        return Let(name, lty(ty), "%s.compute_landscape" % v.a(), go())
+
     def block(self, stmts, cont):
         if not stmts:
             return cont()
@@ -771,8 +804,12 @@ class Fn:
         self.cur_stmt = s
         if isinstance(s, ast.Pass):
             return go()
+        if self.obj_receiver(s) is not None:
+            return self.obj_stmt(s, go)
         if self.is_effect(s):
-            self.effects.append(ast.unparse(s))
+            # pinned with its position: the path of the statement in the function body and the number of names the translation
+            # has bound before it (every translated statement binds at least one: moving the effect across one changes the pin)
+            self.effects.append("[%s|%d] %s" % (self.unit.paths[id(s)], self.ndefs, ast.unparse(s)))
             return go()
         if is_inplace_stmt(s):
             return self.inplace_stmt(s, go)
@@ -817,6 +854,8 @@ class Fn:
         if isinstance(tgt, ast.Name):
             # a bare non-negative integer constant bound to a name is a `Nat` (a line width); where a float is computed with, the numeral
             v = self.expr(val, "N" if (isinstance(val, ast.Constant) and type(val.value) is int) else None)
+            if v.ty in OBJECT_TYPES:
+                raise Shape("a second name for the landscape object (its state is written in place): %s" % ast.unparse(s))
             if isinstance(val, ast.Name) and v.ty in MUTABLE:     # a second name for the same array / list: nobody owns it any more
                 self.disown(val.id)
                 v.fresh = False
@@ -831,6 +870,8 @@ class Fn:
         if isinstance(tgt, ast.Tuple) and all(isinstance(e, ast.Name) for e in tgt.elts):
             if isinstance(val, ast.Tuple) and len(val.elts) == len(tgt.elts):
                 vs = [self.expr(e) for e in val.elts]         # all right-hand sides first, in the old environment
+                if any(v.ty in OBJECT_TYPES for v in vs):
+                    raise Shape("a second name for the landscape object (its state is written in place): %s" % ast.unparse(s))
                 for e, v in zip(val.elts, vs):
                     if isinstance(e, ast.Name) and v.ty in MUTABLE:
                         self.disown(e.id)
@@ -1013,7 +1054,8 @@ class Fn:
         if isinstance(inner, ast.Name) and inner.id in self.env and inner.id not in self.opaque:
             ty = self.env[inner.id][1]
             if ty == "OXY":
-                return ("opt", inner.id, OPTION_PAYLOAD[ty], not neg)
+                # truthiness, not `is None`: the scrutinee is `truthyVal x` (the model's type has no falsy value but `None`)
+                return ("opt", inner.id, OPTION_PAYLOAD[ty], not neg, "truthyVal %s")
             if ty in ("OLI", "OLN", "OLS"):
                 c = "truthy %s" % self.cur(inner.id).t
                 return ("bool", "!(%s)" % c if neg else c)
@@ -1055,7 +1097,7 @@ class Fn:
         def mk(a, b, pa, pb):
             if t[0] == "bool":
                 return Ite(t[1], a, b)
-            scrut = env0[t[1]][0]
+            scrut = env0[t[1]][0] if len(t) < 5 else t[4] % env0[t[1]][0]
             return OptMatch(scrut, pa or "_", b, a) if t[3] else OptMatch(scrut, pb or "_", a, b)
 
         ta, tb = terminates(s.body), terminates(s.orelse)
@@ -1328,8 +1370,11 @@ class Unit:
 
     # hooks for the landscape objects (see `objects` in the tables)
     def obj_attr(self, tr, node):
-        if isinstance(node.value, ast.Name) and tr.env.get(node.value.id, (0, 0))[1] in OBJECTS:
-            return OBJECTS[tr.env[node.value.id][1]]["attrs"].get(node.attr)
+        """an attribute of a landscape object: of the object in the state it has WHERE THE STATEMENT STANDS (before
+        `compute_landscape()`: what is stored)"""
+        if isinstance(node.value, ast.Name) and tr.env.get(node.value.id, (0, 0))[1] in OBJECT_TYPES:
+            ty = tr.env[node.value.id][1]
+            return OBJECTS[COMPUTED.get(ty, ty)]["attrs"].get(node.attr)
         return None
 
     def obj_call(self, tr, node):
@@ -1342,6 +1387,9 @@ class Unit:
         return None
 
     def obj_iter(self, tr, x, tgt):
+        if x.ty in COMPUTED and x.ty not in OBJECTS:
+            raise Shape("iteration over a landscape object before its `compute_landscape()` statement (`__getitem__` computes it "
+                        "lazily and writes its state: not modelled)")
         if x.ty in OBJECTS and isinstance(tgt.elts[1], ast.Name):
             item = OBJECTS[x.ty]["item"]
             return ("pyEnumerate %s.depths" % x.a(), ("N", item),
@@ -1365,6 +1413,8 @@ class Unit:
                 raise Shape("%s in %s" % (type(n).__name__, fn.name))
         self.effects[cfg["func"]], self.conversions[cfg["func"]], self.returns[cfg["func"]] = [], [], []
         self.nrounds[cfg["func"]] = 0
+        self.paths = {}
+        index_paths(body, [], self.paths)
         tr = Fn(self, cfg)
         tr.used |= {n for n, _ in cfg["lead"]} | set(FIXED_BINDERS)
         clash = sorted((self.locals[cfg["func"]] - {p for p, _ in cfg["params"]}) & (RESERVED | {n for n, _ in cfg["lead"]}))
@@ -1413,6 +1463,21 @@ def stub(cfg):
 # the landscape objects: the attributes the plots read, the type of an item of `enumerate(landscape)`
 OBJECTS = {"LE": {"attrs": {"max_depth": "Z"}, "item": "FD"},
            "LA": {"attrs": {"max_depth": "Z", "start": "S", "stop": "S"}, "item": "FL"}}
+# the type of the object after `.compute_landscape()`; `LE0` / `LA0`: the object as it is passed in (possibly built with compute=False)
+COMPUTED = {"LE0": "LE", "LA0": "LA", "LE": "LE", "LA": "LA"}
+OBJECT_TYPES = set(COMPUTED)
+
+
+def index_paths(stmts, prefix, out):
+    """id(statement) -> its path in the function body: `3`, `5.then.0`, `5.else.1`, `7.for.2`"""
+    for k, st in enumerate(stmts):
+        p = prefix + [str(k)]
+        out[id(st)] = ".".join(p)
+        if isinstance(st, ast.If):
+            index_paths(st.body, p + ["then"], out)
+            index_paths(st.orelse, p + ["else"], out)
+        elif isinstance(st, (ast.For, ast.While, ast.With, ast.Try)):
+            index_paths(st.body, p + ["for"], out)
 
 
 HEADER = (
@@ -1430,7 +1495,7 @@ HEADER = (
     "    `SFig.after fig <the model's figure>` (the model's artists appended in order, each on the axes the model says, with the\n"
     "    styling arguments its abstract style stands for; limits, labels, title, legend as the model says);\n"
     "  * text pins (`ast.unparse`): `src_<f>_signature`, `src_<f>_effects` (the statements that are effects the model does not carry,\n"
-    "    in source order), `src_<f>_conversions` (`int(i)`, `np.array(l)` read as the identity), `src_<f>_returns`,\n"
+    "    each with its position `[k|n]`, in source order), `src_<f>_conversions` (`int(i)`, `np.array(l)` read as the identity), `src_<f>_returns`,\n"
     "    `src_<function>_skeleton` for the helper functions that are not translated, `src_<file>_module_skeleton` (every module-level\n"
     "    statement that is not a `def` / `class`), `src_<file>_bindings`.\n\n"
     "Conventions of the translation (the translator's semantics of its Python subset):\n"
@@ -1448,7 +1513,16 @@ HEADER = (
     "    `.str s` / `.num n` for a constant or a local holding one, `.param \"p\"` for the opaque parameter `p`;\n"
     "  * any other expression statement, and an `if` on an opaque parameter that holds only such statements, is an EFFECT the model\n"
     "    does not carry (`plt.style.use(colormap)`, `ax.set_aspect('equal', 'box')`, `ax.margins(padding)`, `plt.show()`): not\n"
-    "    translated, pinned as text in source order (`srcEffects_<f>`);\n"
+    "    translated, pinned as text WITH ITS POSITION (`srcEffects_<f>`: `\"[k|n] stmt\"`, `k` = the path of the statement in the\n"
+    "    function body, docstring excluded -- `5.then.0` is the first statement of the `if` that is statement 5 --, `n` = the number of\n"
+    "    names the translation has bound before it; every translated statement binds at least one, so an effect moved across a\n"
+    "    translated statement, into or out of an `if` / a loop, changes its pin);\n"
+    "  * `landscape.compute_landscape()` is NOT an effect: it writes the state (`max_depth`, `critical_pairs` / `values`) that\n"
+    "    translated statements read.  It is the state transformer `LandExact.compute_landscape` / `LandApprox.compute_landscape` of\n"
+    "    Lemmas/SrcLibPlot.lean, translated where it stands (`let landscape_1 := landscape.compute_landscape`: the statements after it\n"
+    "    read `landscape_1`, the statements before it the object as it was passed in, possibly built with `compute=False`); accepted\n"
+    "    only as a statement of the function body itself (not under an `if` / in a loop); any other method call on the object, a\n"
+    "    second name for it, and iterating over it before that statement (`__getitem__` would compute it lazily) are outside the subset;\n"
     "  * every binding must be READ: a store that nothing reads afterwards (after the last use of a name, to a parameter, to a name\n"
     "    that only an effect statement mentions) is outside the subset -- it would be a dead `let` that `rfl` absorbs; an assignment\n"
     "    to an opaque parameter is outside the subset; exempt are the bindings of a loop target (`d` of `[i, j, d]`);\n"
@@ -1465,8 +1539,10 @@ HEADER = (
     "    `labels : Labels` (`None`, a string, a list), `plot_only : Option (List Int)`, `xy_range : Option (α × α × α × α)`,\n"
     "    `title : Option String`; `if not isinstance(x, list): x = [x]` ↦ `listOfArg`, `if labels is None: labels = e` ↦ `labelsOrElse`\n"
     "    (afterwards a string or a list), `if not isinstance(labels, list): labels = [labels] * len(d)` ↦ `broadcastStr`; `if x:` on\n"
-    "    `None`-or-list is `truthy x`, the list where it is iterated `seqOf x`; `if not x:` / `if x is not None:` on the other\n"
-    "    `Option`s is a `match` binding the payload; `xy_range == 0` is `false` (`None == 0`, `[…] == 0`; the integer `0` is not a\n"
+    "    `None`-or-list is `truthy x`, the list where it is iterated `seqOf x`; `if title:` is `truthyStr title`; `if x is None:` /\n"
+    "    `if x is not None:` on an `Option` is `match x with …` binding the payload; the TRUTHINESS test `if xy_range:` /\n"
+    "    `if not xy_range:` is `match truthyVal xy_range with …` (a different text, which `rfl` does not identify with the `is None`\n"
+    "    form: the empty list, falsy but not `None`, is not a value of the model's type); `xy_range == 0` is `false` (`None == 0`, `[…] == 0`; the integer `0` is not a\n"
     "    value of the model's type);\n"
     "  * an `(n, 2)` diagram is `Dgm α` (birth, death or `none` = `inf`); arrays are VALUES: an in-place update gives the name a new\n"
     "    value, which agrees with NumPy as long as nobody else holds the array -- accepted only for arrays this function created\n"
@@ -1614,7 +1690,8 @@ def trusted_note(key):
             "opaque, obligation statements and proof scripts, the reviewed texts of signatures / effects / conversions / module "
             "skeletons / bindings -- its stated conventions -- a plotting function as a state transformer of the figure, "
             "`ax = ax or plt.gca()` as the definition of the axes handle, matplotlib calls as table entries with their styling arguments "
-            "carried as values, everything else an effect pinned as text, arrays as values with in-place updates accepted only on arrays "
+            "carried as values, `landscape.compute_landscape()` as the state transformer of the landscape object, everything else an effect "
+            "pinned as text with its position, arrays as values with in-place updates accepted only on arrays "
             "the function created, `inf` entries read through a universally quantified stand-in -- and Lemmas/SrcLibPlot.lean (the idiom "
             "library and the table `styleMpl` saying which matplotlib arguments each abstract style of the model stands for) are trusted)"
             % (PYFILE, PYFILE_L, FILES[key][1]))
@@ -1635,7 +1712,10 @@ def manifest_note(key):
             "landscapeExactSimple / landscapeApproxSimple). So the chain for C20 is Python source -> (translated, proved) -> artist-list "
             "model -> (proved, Props/C20.lean) -> the statement's clauses. An edit of the translated lines breaks a generated obligation "
             "(src_<def>_eq_ref of the definition it lands in) and triggers the failing-input search, except a renaming of locals or a "
-            "reordering of independent assignments; effect statements (plt.style.use, set_aspect, margins, show), signatures, the helper "
+            "reordering of independent assignments; landscape.compute_landscape() is translated as the state transformer it is (the default "
+            "depth_range reads the COMPUTED max_depth; src_plot_landscape_*_simple_lazy: for a landscape built with compute=False the "
+            "lines drawn are those of the computed landscape); effect statements (plt.style.use, set_aspect, margins, show) are pinned "
+            "as text with their position among the translated statements, signatures, the helper "
             "plot_a_bar, every module-level statement and the bindings of the names used are pinned as text (src_<f>_effects, "
             "src_<f>_signature, src_plot_a_bar_skeleton, src_<file>_module_skeleton, src_<file>_bindings). Not tied by the translator: "
             "what matplotlib / NumPy do behind the table entries (compared with the model on every harness case by reading the artists "
